@@ -59,9 +59,9 @@ func genCase(t *rapid.T) Case {
 	for i := 0; i < nm; i++ {
 		m := Mut{On: rapid.IntRange(0, vals-1).Draw(t, "on"), I: rapid.IntRange(0, 50).Draw(t, "i"), V: gen.Float(t, gen.AllBits)}
 		if what == "geom" {
-			m.Name = rapid.SampledFrom([]string{"flat", "flat", "ends", "push", "push", "reverse", "setcoords", "srid", "transform", "swap", "clone", "reserve"}).Draw(t, "mut")
+			m.Name = rapid.SampledFrom([]string{"flat", "flat", "ends", "push", "push", "reverse", "setcoords", "srid", "transform", "swap", "clone", "reserve", "pushall"}).Draw(t, "mut")
 			switch m.Name {
-			case "push":
+			case "push", "pushall":
 				pk := map[string]string{model.Polygon: model.LinearRing, model.MultiPoint: model.Point, model.MultiLineString: model.LineString, model.MultiPolygon: model.Polygon}[c.G.Kind]
 				if pk == "" {
 					m.Name = "flat"
@@ -156,6 +156,7 @@ func propGeom(c Case) error {
 		}
 		t := vals[on]
 		applied := m.Name
+		pushedAll := false
 		var undo func()
 		switch m.Name {
 		case "flat":
@@ -231,6 +232,30 @@ func propGeom(c Case) error {
 			if m.G.NumCoords() == 0 && len(t.Ends()) == 0 && len(t.Endss()) == 0 {
 				applied = "none"
 			}
+		case "pushall":
+			// one part object pushed onto every value (the original and its clones): each
+			// takes a copy of its own, so later writes to one value stay there
+			p, err := model.Build(m.G, model.RouteFlat)
+			if err != nil {
+				return err
+			}
+			for vi, v := range vals {
+				var err error
+				switch r := v.(type) {
+				case *geom.Polygon:
+					err = r.Push(p.(*geom.LinearRing))
+				case *geom.MultiPoint:
+					err = r.Push(p.(*geom.Point))
+				case *geom.MultiLineString:
+					err = r.Push(p.(*geom.LineString))
+				case *geom.MultiPolygon:
+					err = r.Push(p.(*geom.Polygon))
+				}
+				if err != nil {
+					return fmt.Errorf("step %d pushall onto value %d: %v", step, vi, err)
+				}
+			}
+			pushedAll = true
 		case "reverse":
 			if r, ok := t.(interface{ Reverse() }); ok {
 				r.Reverse()
@@ -301,7 +326,7 @@ func propGeom(c Case) error {
 		}
 		_ = applied
 		for i, v := range vals[:len(before)] {
-			if i == on {
+			if i == on || pushedAll {
 				continue
 			}
 			if now := snap(v).String(); now != before[i] {
